@@ -337,16 +337,46 @@ struct Case {
     num_special_tokens: usize,
     nfkc: bool,
     num_threads: u8,
+    /// how `lines` are cut into files (lengths), None = one file
+    cut: Option<Vec<usize>>,
+    /// `max_lines_per_file`; the corpus is then the first so many lines of every file
+    max_lines: Option<usize>,
+    /// line termination per file (`filesets::TERM_*`), empty = LF everywhere
+    term: Vec<u8>,
 }
 
 impl Case {
+    fn plain(lines: Vec<String>, vocab_size: usize, num_special_tokens: usize, nfkc: bool, num_threads: u8) -> Case {
+        Case { lines, vocab_size, num_special_tokens, nfkc, num_threads, cut: None, max_lines: None, term: vec![] }
+    }
+    /// the files as lists of lines
+    fn files(&self) -> Vec<Vec<String>> {
+        match &self.cut {
+            None => vec![self.lines.clone()],
+            Some(c) => {
+                let mut i = 0;
+                c.iter()
+                    .map(|n| {
+                        i += n;
+                        self.lines[i - n..i].to_vec()
+                    })
+                    .collect()
+            }
+        }
+    }
+    /// the lines training has to count: the first `max_lines` lines of every file
+    fn corpus_lines(&self) -> Vec<String> {
+        self.files().iter().flat_map(|f| f.iter().take(self.max_lines.unwrap_or(usize::MAX)).cloned()).collect()
+    }
     fn requested_merges(&self) -> usize {
         self.vocab_size.saturating_sub(256).saturating_sub(self.num_special_tokens)
     }
     fn json(&self) -> Value {
         json!({"lines": self.lines, "vocab_size": self.vocab_size, "num_special_tokens": self.num_special_tokens,
                "requested_merges": self.requested_merges(),
-               "normalization": if self.nfkc { json!("nfkc") } else { Value::Null }, "num_threads": self.num_threads, "runs": RUNS})
+               "normalization": if self.nfkc { json!("nfkc") } else { Value::Null }, "num_threads": self.num_threads, "runs": RUNS,
+               "lines_per_file": self.cut, "max_lines_per_file": self.max_lines,
+               "line_termination_per_file": self.term.iter().map(|t| tu_verif::filesets::term_name(*t)).collect::<Vec<_>>()})
     }
     fn from_json(v: &Value) -> Case {
         Case {
@@ -355,6 +385,9 @@ impl Case {
             num_special_tokens: v["num_special_tokens"].as_u64().unwrap() as usize,
             nfkc: !v["normalization"].is_null(),
             num_threads: v["num_threads"].as_u64().unwrap() as u8,
+            cut: v["lines_per_file"].as_array().map(|a| a.iter().map(|n| n.as_u64().unwrap() as usize).collect()),
+            max_lines: v["max_lines_per_file"].as_u64().map(|n| n as usize),
+            term: v["line_termination_per_file"].as_array().map(|a| a.iter().map(|t| tu_verif::filesets::term_from_name(t.as_str())).collect()).unwrap_or_default(),
         }
     }
 }
@@ -376,8 +409,9 @@ impl Ctx {
 
 fn check_case(run: &mut Run, ctx: &mut Ctx, case: &Case) {
     run.evaluations += 1;
-    if ctx.info.as_ref().map(|(l, _)| l != &case.lines).unwrap_or(true) {
-        ctx.info = Some((case.lines.clone(), corpus_info(&case.lines)));
+    let corpus_lines = case.corpus_lines();
+    if ctx.info.as_ref().map(|(l, _)| l != &corpus_lines).unwrap_or(true) {
+        ctx.info = Some((corpus_lines.clone(), corpus_info(&corpus_lines)));
     }
     let m = case.requested_merges();
     let (min_merges, max_merges) = {
@@ -395,16 +429,28 @@ fn check_case(run: &mut Run, ctx: &mut Ctx, case: &Case) {
         run.count("cases: corpus supplies all requested merges");
     }
     run.sample(|| case.json());
-    let corpus = ctx.scratch.path("corpus.txt");
     let out = ctx.scratch.path("merges.bin");
-    std::fs::write(&corpus, case.lines.iter().map(|l| format!("{l}\n")).collect::<String>()).expect("cannot write corpus");
+    let files = case.files();
+    let paths: Vec<std::path::PathBuf> = (0..files.len()).map(|i| ctx.scratch.path(&format!("corpus{i}.txt"))).collect();
+    for (i, (p, f)) in paths.iter().zip(&files).enumerate() {
+        std::fs::write(p, tu_verif::filesets::file_body(f, case.term.get(i).copied().unwrap_or(tu_verif::filesets::TERM_LF))).expect("cannot write corpus");
+    }
+    if files.len() > 1 {
+        run.count("cases with several files");
+    }
+    if case.term.iter().any(|t| *t != tu_verif::filesets::TERM_LF) {
+        run.count("cases with an unterminated last line or CRLF line ends");
+    }
+    if case.max_lines.map(|m| files.iter().any(|f| f.len() > m)).unwrap_or(false) {
+        run.count("cases where max_lines_per_file drops lines");
+    }
     let mut tables: Vec<Vec<(u32, Vec<u8>)>> = vec![];
     for r in 0..RUNS {
         let _ = std::fs::remove_file(&out);
         let norm = if case.nfkc { Some(Normalization::NFKC) } else { None };
         run.calls += 1;
         run.tick();
-        let res = catch(|| train_bpe(&[&corpus], case.vocab_size, case.num_special_tokens, &out, None, norm, case.num_threads, false));
+        let res = catch(|| train_bpe(&paths, case.vocab_size, case.num_special_tokens, &out, case.max_lines, norm, case.num_threads, false));
         quiet_panics(); // train_bpe installs its own printing hook
         match res {
             Err(p) => {
@@ -425,7 +471,7 @@ fn check_case(run: &mut Run, ctx: &mut Ctx, case: &Case) {
             }
         };
         run.compared += 1;
-        run.outcome(&(&case.lines, &entries));
+        run.outcome(&(&corpus_lines, &entries));
         run.count(&format!("tables with {} entries", entries.len()));
         let info = &ctx.info.as_ref().unwrap().1;
         let class = if is_d2_image(info, m, &entries) { D2 } else { "" };
@@ -617,7 +663,52 @@ fn main() {
         }
     }
     let sus = sched_units(run.quick());
+    // file phase: the same lines cut into files in every way x max_lines_per_file x every way of
+    // terminating the lines; one unit per list of lines
+    let file_lists: Vec<Vec<String>> = {
+        let mut v = vec![];
+        let two = strings(&ALPHA, run.pick(2, 3));
+        for x in &two {
+            for y in &two {
+                v.push(vec![x.clone(), y.clone()]);
+            }
+        }
+        let three = if run.quick() { strings(&["a", "b"], 1) } else { strings(&ALPHA, 1) };
+        for x in &three {
+            for y in &three {
+                for z in &three {
+                    v.push(vec![x.clone(), y.clone(), z.clone()]);
+                }
+            }
+        }
+        v
+    };
+    let file_cases = |lines: &Vec<String>| -> Vec<Case> {
+        let mut v = vec![];
+        for files in tu_verif::filesets::compositions(lines) {
+            let cut: Vec<usize> = files.iter().map(|f| f.len()).collect();
+            let mut terms = vec![vec![]];
+            terms.extend(tu_verif::filesets::term_patterns(&files));
+            for max_lines in [None, Some(1usize)] {
+                for term in &terms {
+                    if files.len() == 1 && max_lines.is_none() && term.is_empty() {
+                        continue; // the plain phase
+                    }
+                    for (_, vocab_size, num_special_tokens) in [MERGES[1], MERGES[5]] {
+                        for num_threads in [1u8, 2] {
+                            v.push(Case { lines: lines.clone(), vocab_size, num_special_tokens, nfkc: false, num_threads, cut: Some(cut.clone()), max_lines, term: term.clone() });
+                        }
+                    }
+                }
+            }
+        }
+        v
+    };
     if let Some(n) = run.describe_unit() {
+        if n as usize >= corpora.len() + sus.len() {
+            println!("{}", json!({"lines": file_lists.get(n as usize - corpora.len() - sus.len()), "grid": "every cut into files x max_lines_per_file {none, 1} x line termination patterns x requested merges {1, 60} x num_threads {1, 2}, each trained twice"}));
+            return;
+        }
         if n as usize >= corpora.len() {
             let u = &sus[n as usize - corpora.len()];
             println!("{}", json!({"scheduler_unit": {"lines": u.0, "requested_merges": u.1, "workers": u.2, "bound": u.3}}));
@@ -637,6 +728,8 @@ fn main() {
         run.bounds.insert("two_line_corpora_extra".into(), json!("first line of at most 2 symbols, second line of exactly 4 symbols"));
     }
     run.bounds.insert("corpora".into(), json!(corpora.len()));
+    run.bounds.insert("file_phase_line_lists".into(), json!(file_lists.len()));
+    run.bounds.insert("file_phase".into(), json!(format!("2 lines of at most {} symbols each, 3 lines of at most 1 symbol each; every cut into files x max_lines_per_file {{none, 1}} x every line-termination pattern (any set of files with an unterminated last line; CRLF) x requested merges {{1, 60}} x num_threads {{1, 2}}", run.pick(2, 3))));
     run.bounds.insert("requested_merges".into(), json!(MERGES.iter().map(|m| json!({"merges": m.0, "vocab_size": m.1, "num_special_tokens": m.2})).collect::<Vec<_>>()));
     run.bounds.insert("normalization".into(), json!(["none", "nfkc"]));
     run.bounds.insert("num_threads".into(), json!(THREADS));
@@ -662,6 +755,17 @@ fn main() {
         // receives are scheduling points and the count channel is the real bounded channel
         check_sched(&mut run, &mut ctx, &u.0, u.1, u.2, u.3.min(if u.2 >= 3 { cb - 1 } else { cb }), true, None);
     }
+    for (k, lines) in file_lists.iter().enumerate() {
+        if !run.unit((corpora.len() + sus.len() + k) as u64) {
+            continue;
+        }
+        if run.out_of_time() {
+            break;
+        }
+        for case in file_cases(lines) {
+            check_case(&mut run, &mut ctx, &case);
+        }
+    }
     for (iu, lines) in corpora.iter().enumerate() {
         if !run.unit(iu as u64) {
             continue;
@@ -672,7 +776,7 @@ fn main() {
         for (_, vocab_size, num_special_tokens) in MERGES {
             for nfkc in [false, true] {
                 for num_threads in THREADS {
-                    check_case(&mut run, &mut ctx, &Case { lines: lines.clone(), vocab_size, num_special_tokens, nfkc, num_threads });
+                    check_case(&mut run, &mut ctx, &Case::plain(lines.clone(), vocab_size, num_special_tokens, nfkc, num_threads));
                 }
             }
         }
